@@ -29,6 +29,7 @@ LANGS = ["typescript", "kotlin", "swift", "scala", "go", "python"]
 B_KINDS = ["struct", "generic_struct", "unit_enum", "alg_enum", "alias"]
 POSITIONS = ["field", "vec", "option", "map_value", "map_both", "generic_arg", "generic_two", "alias_target", "newtype_payload", "struct_variant_field", "self_generic"]
 ORIG = "Bee"
+CHAIN_KINDS = ("struct", "unit_enum")
 PUA = extract.PUA_CLASS
 
 
@@ -69,6 +70,10 @@ def build(ir, bkind, renamed, pos, ren_chars):
     else:   # the generic struct refers to itself through a container
         a = None
     return b, a
+
+
+def a_is_referrer(pos):
+    return pos != "self_generic"
 
 
 def clone_ref(ir, bkind):
@@ -116,7 +121,7 @@ def case_c(case):
         for c in rc[1:]:
             I.assume(z3.And(z3.UGE(c, 97), z3.ULE(c, 122)))
         # the new name differs from every other name in the file
-        for other in ("Aaa", "Bee", "Other", "Wrap", "Pair"):
+        for other in ("Aaa", "Bee", "Other", "Wrap", "Pair", "Zed"):
             if len(other) == 3:
                 I.assume(z3.Not(z3.And([a == ord(b) for a, b in zip(rc, other)])))
         b, a = build(ir, bkind, renamed, pos, rc)
@@ -126,6 +131,9 @@ def case_c(case):
             lists[a[0]].append(a[1])
         if pos == "self_generic":
             lists["structs"].append(ir.struct("Aaa", [ir.field("r", ir.vec(clone_ref(ir, bkind))), ir.field("s", ir.option(clone_ref(ir, bkind)))]))
+        if renamed and bkind in CHAIN_KINDS:
+            # a third item whose RUST name is B's new name and which is itself renamed (to Zed): one hop of renaming only
+            lists["structs"].append(ir.struct(RString(list(rc)), [ir.field("z", ir.special("Bool"))], renamed="Zed"))
         names = RMap("HashSet", [[S("Aaa"), UNIT], [RString(list(rc)) if renamed else S(ORIG), UNIT]])
         pd = ir.parsed_data(structs=lists["structs"], enums=lists["enums"], aliases=lists["aliases"], type_names=names)
         pd = bharness.reconcile_single(I, pd)
@@ -161,6 +169,10 @@ def case_c(case):
             if pfx and pre.endswith(pfx):
                 pre = pre[:-len(pfx)]
             groups.setdefault((pre, suffix), []).append((m.start(), m.end()))
+        if renamed and a_is_referrer(pos) and len(groups.get(("", ""), [])) < 2:
+            m = I.sat_model(z3.BoolVal(True))
+            nm_ = "".join(chr(m.eval(c, model_completion=True).as_long()) for c in rc)
+            res["violations"].append({"kind": "name-mismatch", "role": "type name", "a": nm_, "b": "<no reference spelled with the new name>", "name": nm_, "line_a": "", "line_b": "", "missing_reference": True})
         for (pre, suffix), spans in groups.items():
             first = spans[0]
             for sp in spans[1:]:
@@ -192,6 +204,8 @@ def render(case, name):
         b = '#[typeshare]\n%s#[serde(tag = "type", content = "content")]\npub enum Bee { Va, Vb(String), Vc { y: bool } }\n' % rn
     else:
         b = "#[typeshare]\n%spub type Bee = Vec<String>;\n" % rn
+    if renamed and bkind in CHAIN_KINDS:
+        b += '#[typeshare]\n#[serde(rename = "Zed")]\npub struct %s { pub z: bool }\n' % name
     ref = "Bee<String>" if bkind == "generic_struct" else "Bee"
     ty = {"field": ref, "vec": "Vec<%s>" % ref, "option": "Option<%s>" % ref, "map_value": "HashMap<String, %s>" % ref, "map_both": "HashMap<%s, %s>" % (ref, ref),
           "generic_arg": "Wrap<%s>" % ref, "generic_two": "Pair<%s, %s>" % (ref, ref), "alias_target": ref, "newtype_payload": ref, "struct_variant_field": ref}.get(pos)
@@ -315,6 +329,8 @@ GP_SHAPES = {
     "variant-two-levels": "#[typeshare]\npub struct Wrap<U> { pub u: U }\n#[typeshare]\n#[serde(tag = \"t\", content = \"c\")]\npub enum Holder<PLACEG> { A, V { page: Wrap<Wrap<PLACEG>> } }\n",
     "variant-shallow": "#[typeshare]\n#[serde(tag = \"t\", content = \"c\")]\npub enum Holder<PLACEG> { A, V { page: Vec<PLACEG> } }\n",
     "struct-nested": "#[typeshare]\npub struct Wrap<U> { pub u: U }\n#[typeshare]\npub struct Holder<PLACEG> { pub page: Wrap<Vec<PLACEG>>, pub m: HashMap<String, Wrap<PLACEG>> }\n",
+    "struct-two-params-unsorted": "#[typeshare]\npub struct Holder<PLACEG, A> { pub first: PLACEG, pub second: Vec<A>, pub m: HashMap<String, PLACEG> }\n",
+    "struct-three-params-unsorted": "#[typeshare]\npub struct Holder<PLACEG, C, B> { pub first: Option<PLACEG>, pub second: Vec<B>, pub third: C }\n#[typeshare]\npub type Al<PLACEG, A> = Vec<PLACEG>;\n",
     "tuple-variant-nested": "#[typeshare]\npub struct Wrap<U> { pub u: U }\n#[typeshare]\n#[serde(tag = \"t\", content = \"c\")]\npub enum Holder<PLACEG> { A, V(Wrap<Vec<PLACEG>>) }\n",
 }
 
@@ -458,6 +474,16 @@ def run(rep, tier, only=None):
                 continue
             if out is None:
                 rep.inconc("no native output for %s: %s" % (case, str(real)[:200])); continue
+            if v.get("missing_reference"):
+                code = strip_comments(case[0], out)
+                n_occ = len(re.findall(r"(?<![A-Za-z0-9_])(?:Op)?%s(?![A-Za-z0-9_])" % re.escape(name), code))
+                if n_occ < 2:
+                    reported.add(key)
+                    rep.violation(sig, "%s: `%s` is renamed to `%s`, but the output spells the new name %d time(s): the reference does not use it (%s)" % (case[0], ORIG, name, n_occ, src.replace("\n", " ")[:300]),
+                                  {"source": src, "lang": case[0], "config": cfg, "missing_reference": name})
+                else:
+                    rep.inconc("engine mismatch %s: no reference with the new name in the interpreter's output, %d occurrences in the real output" % (case, n_occ))
+                continue
             if v["line_a"] in out and v["line_b"] in out:
                 reported.add(key)
                 rep.violation(sig, "%s: `%s` vs `%s` (%s of %s) in `%s` ... `%s`" % (case[0], v["a"], v["b"], v["role"], "renamed " + case[1] if case[2] else case[1], v["line_a"], v["line_b"]),
@@ -526,4 +552,7 @@ def replay(case):
     rep.close()
     out = r.get("out", {}).get("", "")
     print(out or r)
+    if c.get("missing_reference"):
+        code = strip_comments(c["lang"], out)
+        return 1 if len(re.findall(r"(?<![A-Za-z0-9_])(?:Op)?%s(?![A-Za-z0-9_])" % re.escape(c["missing_reference"]), code)) < 2 else 0
     return 1 if all(l in out for l in c.get("lines", ["\0"])) else 0
